@@ -126,11 +126,33 @@ Proof.
     + repeat split; simpl; auto. apply flat_some_perm. exact Pl.
 Qed.
 
+(* ---- set operators of the core language: one datapoint per key is preserved (alignment by name is injective on keys),
+   and the result depends only on the SETS of datapoints of the operands *)
+Lemma d_setop_wfd op a b r : d_setop op a b = Ok r -> wfd a -> wfd b -> wfd r.
+Proof.
+  intros H Ha Hb. destruct (d_setop_spec _ _ _ _ H) as [Hc [_ [_ [rb [Hrb Hr]]]]].
+  destruct (set_compat_spec _ _ Hc) as [Hi [_ Hnd]]. unfold wfd in *. rewrite Hr.
+  apply set_rows_uniq; [exact Ha|].
+  apply (align_rows_uniq (d_ids b) (d_ms b) (d_ids a) (d_ms a) (d_rows b) rb Hnd); [intros n Hn; apply Hi; exact Hn | exact Hrb | exact Hb].
+Qed.
+
+Lemma d_setop_perm op a b a' b' r :
+  wfd a -> wfd b -> dequiv a a' -> dequiv b b' ->
+  d_setop op a b = Ok r -> exists r', d_setop op a' b' = Ok r' /\ dequiv r r'.
+Proof.
+  intros _ _ Ea Eb H. rewrite (dequiv_form _ _ Ea), (dequiv_form _ _ Eb).
+  destruct Ea as [_ [_ Pa]]. destruct Eb as [_ [_ Pb]].
+  unfold d_setop in *. unfold set_compat in *. simpl.
+  destruct (negb _); [discriminate|]. apply bind_ok in H. destruct H as [rb [Hrb H]]. injection H as <-.
+  destruct (mapM_perm _ _ _ _ Pb Hrb) as [rb' [Hrb' Prb]]. rewrite Hrb'. simpl.
+  eexists. split; [reflexivity|]. repeat split; simpl; auto. apply set_rows_perm; assumption.
+Qed.
+
 (* ---- the composite theorem over the expression language (DSub excluded: see C33 notes) *)
 Fixpoint no_sub (x : dexpr) : bool :=
   match x with
   | DVar _ => true
-  | DBin _ a b => no_sub a && no_sub b
+  | DBin _ a b | DSet _ a b => no_sub a && no_sub b
   | DMap a _ | DFilter a _ | DCalc a _ | DKeep a _ | DDrop a _ | DRename a _ => no_sub a
   | DSub _ _ => false
   end.
@@ -155,7 +177,7 @@ Theorem deval_perm x : no_sub x = true ->
   forall e e' r, env_equiv e e' -> deval e x = Ok r ->
   exists r', deval e' x = Ok r' /\ dequiv r r' /\ wfd r.
 Proof.
-  induction x as [n|op a IHa b IHb|a IH body|a IH c|a IH defs|a IH l|a IH l|a IH l|a IH l]; simpl; intros Hs e e' r Ee H;
+  induction x as [n|op a IHa b IHb|op a IHa b IHb|a IH body|a IH c|a IH defs|a IH l|a IH l|a IH l|a IH l]; simpl; intros Hs e e' r Ee H;
     try discriminate.
   - specialize (Ee n). destruct (dlook n e) as [d|], (dlook n e') as [d'|]; try discriminate; try contradiction.
     injection H as <-. destruct Ee as [E W]. exists d'. auto.
@@ -166,6 +188,13 @@ Proof.
     rewrite Hda', Hdb'. simpl.
     destruct (d_binop_perm op da db da' db' r Wa Wb Ea Eb H) as [r' [H1 H2]].
     exists r'. repeat split; auto; try apply H2. eapply d_binop_wfd; eauto.
+  - apply andb_true_iff in Hs. destruct Hs as [Hsa Hsb].
+    apply bind_ok in H. destruct H as [da [Hda H]]. apply bind_ok in H. destruct H as [db [Hdb H]].
+    destruct (IHa Hsa e e' da Ee Hda) as [da' [Hda' [Ea Wa]]].
+    destruct (IHb Hsb e e' db Ee Hdb) as [db' [Hdb' [Eb Wb]]].
+    rewrite Hda', Hdb'. simpl.
+    destruct (d_setop_perm op da db da' db' r Wa Wb Ea Eb H) as [r' [H1 H2]].
+    exists r'. repeat split; auto; try apply H2. eapply d_setop_wfd; eauto.
   - eapply unary_step; [|intros d Hd; exact (IH Hs e e' d Ee Hd)|exact H].
     intros d d' r0 W E Hr. rewrite (dequiv_form _ _ E). destruct E as [_ [_ P]].
     destruct (d_map_perm d body (d_rows d') r0 P Hr) as [r' [H1 H2]]. exists r'. split; [exact H1|].
@@ -206,6 +235,7 @@ Section Nondet.
     match x with
     | DVar n => match dlook n e with Some d => Ok (w d) | None => Err "1-2-2" end
     | DBin op a b => bind (deval_nd e a) (fun da => bind (deval_nd e b) (fun db => bind (d_binop op da db) (fun r => Ok (w r))))
+    | DSet op a b => bind (deval_nd e a) (fun da => bind (deval_nd e b) (fun db => bind (d_setop op da db) (fun r => Ok (w r))))
     | DMap a body => bind (deval_nd e a) (fun d => bind (d_map d body) (fun r => Ok (w r)))
     | DFilter a c => bind (deval_nd e a) (fun d => bind (d_filter d c) (fun r => Ok (w r)))
     | DCalc a defs => bind (deval_nd e a) (fun d => bind (d_calc d defs) (fun r => Ok (w r)))
@@ -227,7 +257,7 @@ Section Nondet.
     forall e r, env_wf e -> deval e x = Ok r ->
     exists r', deval_nd e x = Ok r' /\ dequiv r r' /\ wfd r.
   Proof.
-    induction x as [n|op a IHa b IHb|a IH body|a IH c|a IH defs|a IH l|a IH l|a IH l|a IH l]; simpl; intros Hs e r We H;
+    induction x as [n|op a IHa b IHb|op a IHa b IHb|a IH body|a IH c|a IH defs|a IH l|a IH l|a IH l|a IH l]; simpl; intros Hs e r We H;
       try discriminate.
     - destruct (dlook n e) as [d|] eqn:E; [|discriminate]. injection H as <-. exists (w d). split; auto. split; auto. eapply We; eauto.
     - apply andb_true_iff in Hs. destruct Hs as [Hsa Hsb].
@@ -235,6 +265,11 @@ Section Nondet.
       destruct (IHa Hsa e da We Hda) as [da' [Hda' [Ea Wa]]]. destruct (IHb Hsb e db We Hdb) as [db' [Hdb' [Eb Wb]]].
       rewrite Hda', Hdb'. simpl. destruct (d_binop_perm op da db da' db' r Wa Wb Ea Eb H) as [r' [H1 H2]].
       rewrite H1. simpl. exists (w r'). split; auto. split; [eapply dequiv_trans; eauto | eapply d_binop_wfd; eauto].
+    - apply andb_true_iff in Hs. destruct Hs as [Hsa Hsb].
+      apply bind_ok in H. destruct H as [da [Hda H]]. apply bind_ok in H. destruct H as [db [Hdb H]].
+      destruct (IHa Hsa e da We Hda) as [da' [Hda' [Ea Wa]]]. destruct (IHb Hsb e db We Hdb) as [db' [Hdb' [Eb Wb]]].
+      rewrite Hda', Hdb'. simpl. destruct (d_setop_perm op da db da' db' r Wa Wb Ea Eb H) as [r' [H1 H2]].
+      rewrite H1. simpl. exists (w r'). split; auto. split; [eapply dequiv_trans; eauto | eapply d_setop_wfd; eauto].
     - apply bind_ok in H. destruct H as [d [Hd H]]. destruct (IH Hs e d We Hd) as [d' [Hd' [E W]]]. rewrite Hd'. simpl.
       rewrite (dequiv_form _ _ E). destruct E as [_ [_ P]].
       destruct (d_map_perm d body (d_rows d') r P H) as [r' [H1 H2]]. rewrite H1. simpl. exists (w r'). split; auto.
